@@ -159,6 +159,7 @@ type Rig struct {
 func NewRig(cfg Config, script Script) *Rig {
 	hub := NewHub()
 	b := NewBackend(hub, script)
+	setActiveBackend(b)
 	s := smtp.NewServer(b)
 	s.Domain = "srv"
 	s.LMTP = cfg.LMTP
